@@ -148,6 +148,9 @@ func (s *listSubj[T]) GenOp(r *Rng, id int, c *Client) Op {
 	case 6:
 		return Op{ID: id, N: "Swap", A: []int{genPos(r, size), genPos(r, size)}}
 	case 7:
+		if r.P(1, 3) {
+			return Op{ID: id, N: "SortRev"} // by the reversed comparator: after a Sort the list is met in exactly the opposite order
+		}
 		return Op{ID: id, N: "Sort"}
 	case 9:
 		if hasApp && r.P(1, 3) {
@@ -193,6 +196,9 @@ func (s *listSubj[T]) ModelApply(op Op) {
 	case "Sort":
 		s.m = slices.Clone(s.m)
 		slices.SortStableFunc(s.m, s.d.Cmp)
+	case "SortRev":
+		s.m = slices.Clone(s.m)
+		slices.SortStableFunc(s.m, func(a, b T) int { return s.d.Cmp(b, a) })
 	case "Clear":
 		s.m = nil
 	case "AddOwn":
@@ -243,9 +249,13 @@ func (s *listSubj[T]) Step(op Op, o *Oracle) {
 		s.l.Set(a[0], s.d.At(a[1]))
 	case "Swap":
 		s.l.Swap(a[0], a[1])
-	case "Sort":
+	case "Sort", "SortRev":
 		before := slices.Clone(s.m)
-		s.l.Sort(s.d.Cmp)
+		cmp := s.d.Cmp
+		if op.N == "SortRev" {
+			cmp = func(a, b T) int { return s.d.Cmp(b, a) }
+		}
+		s.l.Sort(cmp)
 		// ties: any non-decreasing permutation of the previous content is legal; the model adopts it
 		got := s.l.Values()
 		if o.On("C03") {
@@ -253,7 +263,7 @@ func (s *listSubj[T]) Step(op Op, o *Oracle) {
 				o.Fail("C03", "sort-permutation", "Sort changed the multiset: before %s after %s", joinS(before, s.d.Str), joinS(got, s.d.Str))
 			}
 			for i := 1; i < len(got); i++ {
-				if s.d.Cmp(got[i-1], got[i]) > 0 {
+				if cmp(got[i-1], got[i]) > 0 {
 					o.Fail("C03", "sort-order", "Sort left %s before %s (cmp %s): %s", s.d.Str(got[i-1]), s.d.Str(got[i]), s.d.CmpName, joinS(got, s.d.Str))
 					break
 				}
